@@ -388,7 +388,10 @@ func c12FloodRun(run *vfRun, c c12FloodCase) {
 			run.Note("late honest partial refused: " + err.Error())
 		}
 	}
-	for i := 0; i < 100 && atomic.LoadInt64(&puts) == 0; i++ {
+	// positive signal ends the wait; the generous cap only matters on a loaded machine (the aggregator may still be
+	// draining the flood from its channel when the honest partial is queued behind it)
+	nt.Settle()
+	for i := 0; i < 3000 && atomic.LoadInt64(&puts) == 0; i++ {
 		time.Sleep(10 * time.Millisecond)
 	}
 	if atomic.LoadInt64(&puts) == 0 {
